@@ -113,8 +113,38 @@ struct LogEntry {
 #[derive(Default)]
 struct Shared {
     log: RefCell<Vec<LogEntry>>,
-    /// fail the probe call with this global index (0-based)
-    fail_at: Option<usize>,
+    /// fail the probe call with this index (0-based, within the current application)
+    fail_at: std::cell::Cell<Option<usize>>,
+    /// logs of the applications already finished on this operator value
+    done: RefCell<Vec<Vec<LogEntry>>>,
+    started: std::cell::Cell<bool>,
+}
+
+impl Shared {
+    /// Start the next application on the same operator value.
+    fn begin(&self, fault: Option<usize>) {
+        if self.started.get() {
+            let l = std::mem::take(&mut *self.log.borrow_mut());
+            self.done.borrow_mut().push(l);
+        }
+        self.started.set(true);
+        self.fail_at.set(fault);
+    }
+
+    /// Logs of all applications, in order.
+    fn logs(&self) -> Vec<Vec<LogEntry>> {
+        let mut v = self.done.borrow().clone();
+        if self.started.get() {
+            v.push(self.log.borrow().clone());
+        }
+        v
+    }
+}
+
+/// One application of the operator value under test.
+struct App {
+    input: Input,
+    fault: Option<usize>,
 }
 
 #[derive(Debug)]
@@ -152,7 +182,7 @@ impl Probe<'_> {
         let mut log = self.sh.log.borrow_mut();
         let call = log.len();
         log.push(LogEntry { id: self.id, input_fp, word });
-        if self.sh.fail_at == Some(call) {
+        if self.sh.fail_at.get() == Some(call) {
             return Err(PErr { id: self.id, call });
         }
         Ok((out_of(self.id, input_fp, word), word))
@@ -248,12 +278,17 @@ struct ModelCtx {
     rng: SimRng,
     log: Vec<LogEntry>,
     fail_at: Option<usize>,
+    /// evaluation stops (as "does not fit") beyond this many probe calls — only the generator sets it
+    budget: usize,
 }
 
 /// Err carries the expected error path (outermost first) ending in the probe.
 fn eval(a: &Ast, input: Val, cx: &mut ModelCtx) -> Result<Val, Vec<String>> {
     match a {
         Ast::P(id) | Ast::Sel(id) => {
+            if cx.log.len() >= cx.budget {
+                return Err(vec!["model: call budget exceeded".into()]);
+            }
             let word = if id % 2 == 1 { u64::from(cx.rng.next_u32()) } else { cx.rng.next_u64() };
             let call = cx.log.len();
             let input_fp = input.fp();
@@ -649,8 +684,8 @@ fn in_shape(k: InKind) -> Sh {
 }
 
 /// Number of probe calls of the fault-free run (None: the tree does not fit its input).
-fn model_calls(tree: &DAst, input: Val, rng: &SimRng) -> Option<usize> {
-    let mut cx = ModelCtx { rng: rng.fork(), log: Vec::new(), fail_at: None };
+fn model_calls(tree: &DAst, input: Val, rng: &SimRng, budget: usize) -> Option<usize> {
+    let mut cx = ModelCtx { rng: rng.fork(), log: Vec::new(), fail_at: None, budget };
     match eval(&tree.model(), input, &mut cx) {
         Ok(_) => Some(cx.log.len()),
         Err(p) if p.iter().any(|t| t.starts_with("model:")) => None,
@@ -813,7 +848,7 @@ struct Shape {
     input: InKind,
     ast: Ast,
     #[allow(clippy::type_complexity)]
-    run: Box<dyn for<'a> Fn(&'a Shared, &Input, &mut SimRng) -> Result<Val, Vec<String>> + Send + Sync>,
+    run: Box<dyn for<'a> Fn(&'a Shared, &[App], &mut SimRng) -> Vec<Result<Val, Vec<String>>> + Send + Sync>,
 }
 
 #[derive(Clone, Debug)]
@@ -881,10 +916,10 @@ macro_rules! shape {
             name: $name,
             input: InKind::$kind,
             ast: $ast,
-            run: Box::new(|sh: &Shared, input: &Input, rng: &mut SimRng| {
+            run: Box::new(|sh: &Shared, apps: &[App], rng: &mut SimRng| {
                 let $p = |id: u32| Probe { id, sh };
                 let op = $real;
-                finish(op.apply(input.$field.clone(), rng))
+                apps.iter().map(|a| { sh.begin(a.fault); let input = &a.input; finish(op.apply(input.$field.clone(), rng)) }).collect()
             }),
         });
     };
@@ -965,11 +1000,11 @@ fn shapes() -> Vec<Shape> {
         name: "Mutate(&p1).then(Mutate(p2))",
         input: InKind::U,
         ast: then(P(1), P(2)),
-        run: Box::new(|sh, input, rng| {
+        run: Box::new(|sh, apps, rng| {
             let p = |id: u32| Probe { id, sh };
             let r1 = p(1);
             let op = Mutate::new(&r1).then(Mutate::new(p(2)));
-            finish(op.apply(input.u, rng))
+            apps.iter().map(|a| { sh.begin(a.fault); let input = &a.input; finish(op.apply(input.u, rng)) }).collect()
         }),
     });
     shape!(v, "Recombine(p1) on [_;2]", Arr2, arr2, |p| Recombine::new(p(1)), P(1));
@@ -977,11 +1012,11 @@ fn shapes() -> Vec<Shape> {
         name: "Recombine(&p1) on pair .then(p2)",
         input: InKind::Pair,
         ast: then(P(1), P(2)),
-        run: Box::new(|sh, input, rng| {
+        run: Box::new(|sh, apps, rng| {
             let p = |id: u32| Probe { id, sh };
             let r1 = p(1);
             let op = Recombine::new(&r1).then(p(2));
-            finish(op.apply(input.pair, rng))
+            apps.iter().map(|a| { sh.begin(a.fault); let input = &a.input; finish(op.apply(input.pair, rng)) }).collect()
         }),
     });
     // type-erased parts inside a pipeline share the stream like any other part
@@ -989,37 +1024,40 @@ fn shapes() -> Vec<Shape> {
         name: "(&dyn DynOperator p1).then(p2)",
         input: InKind::U,
         ast: then(P(1), P(2)),
-        run: Box::new(|sh, input, rng| {
+        run: Box::new(|sh, apps, rng| {
             let p = |id: u32| Probe { id, sh };
             let p1 = p(1);
             let d: &dyn DynOperator<u64, PErr, Output = u64> = &p1;
-            finish(d.then(p(2)).apply(input.u, rng))
+            let op = d.then(p(2));
+            apps.iter().map(|a| { sh.begin(a.fault); let input = &a.input; finish(op.apply(input.u, rng)) }).collect()
         }),
     });
     v.push(Shape {
         name: "p2.then(&dyn DynOperator p1).and(p3)",
         input: InKind::U,
         ast: and(then(P(2), P(1)), P(3)),
-        run: Box::new(|sh, input, rng| {
+        run: Box::new(|sh, apps, rng| {
             let p = |id: u32| Probe { id, sh };
             let p1 = p(1);
             let d: &dyn DynOperator<u64, PErr, Output = u64> = &p1;
-            finish(p(2).then(d).and(p(3)).apply(input.u, rng))
+            let op = p(2).then(d).and(p(3));
+            apps.iter().map(|a| { sh.begin(a.fault); let input = &a.input; finish(op.apply(input.u, rng)) }).collect()
         }),
     });
     v.push(Shape {
         name: "(&dyn DynOperator (p1.and(p3))).then_map(p5)",
         input: InKind::U,
         ast: then(and(P(1), P(3)), map(P(5))),
-        run: Box::new(|sh, input, rng| {
+        run: Box::new(|sh, apps, rng| {
             let p = |id: u32| Probe { id, sh };
             let inner = p(1).and(p(3));
             let d: &dyn DynOperator<u64, Box<dyn StdError + Send + Sync>, Output = (u64, u64)> = &inner;
-            match d.then_map(p(5)).apply(input.u, rng) {
+            let op = d.then_map(p(5));
+            apps.iter().map(|a| { sh.begin(a.fault); let input = &a.input; match op.apply(input.u, rng) {
                 Ok(o) => Ok(o.to_val()),
                 // (the erased layer boxes the inner error; its Debug form is the inner error's)
                 Err(e) => Err(error_path(&e)),
-            }
+            } }).collect()
         }),
     });
     // selection needs a borrowed population as input: handled by the two
@@ -1028,28 +1066,28 @@ fn shapes() -> Vec<Shape> {
         name: "Select(p1).then(p2) on &Vec",
         input: InKind::List,
         ast: then(Ast::Sel(1), P(2)),
-        run: Box::new(|sh, input, rng| {
+        run: Box::new(|sh, apps, rng| {
             let p = |id: u32| Probe { id, sh };
             let op = Select::new(p(1)).then(p(2));
-            finish(op.apply(&input.list, rng))
+            apps.iter().map(|a| { sh.begin(a.fault); let input = &a.input; finish(op.apply(&input.list, rng)) }).collect()
         }),
     });
     v.push(Shape {
         name: "Select(&p1).apply_twice().then_map(p2) on &Vec",
         input: InKind::List,
         ast: then(rep(Ast::Sel(1), 2), map(P(2))),
-        run: Box::new(|sh, input, rng| {
+        run: Box::new(|sh, apps, rng| {
             let p = |id: u32| Probe { id, sh };
             let s = p(1);
             let op = Select::new(&s).apply_twice().then_map(p(2));
-            finish(op.apply(&input.list, rng))
+            apps.iter().map(|a| { sh.begin(a.fault); let input = &a.input; finish(op.apply(&input.list, rng)) }).collect()
         }),
     });
     v.push(Shape {
         name: "realistic pipeline: Select.apply_twice.then_map(GenomeExtractor).then(Recombine).then(Mutate).wrap::<GenomeScorer>",
         input: InKind::Pop,
         ast: Ast::Score(Box::new(then(then(then(rep(Ast::Sel(1), 2), map(Ast::Extract)), P(2)), P(3)))),
-        run: Box::new(|sh, input, rng| {
+        run: Box::new(|sh, apps, rng| {
             let p = |id: u32| Probe { id, sh };
             let rec = p(2);
             let op = Select::new(p(1))
@@ -1058,7 +1096,7 @@ fn shapes() -> Vec<Shape> {
                 .then(Recombine::new(&rec))
                 .then(Mutate::new(p(3)))
                 .wrap::<GenomeScorer<_, _>>(FnScorer(score_fn));
-            finish(op.apply(&input.pop, rng))
+            apps.iter().map(|a| { sh.begin(a.fault); let input = &a.input; finish(op.apply(&input.pop, rng)) }).collect()
         }),
     });
     v
@@ -1077,6 +1115,10 @@ struct Sc {
     /// dynamic tree (seeded composition of arbitrary depth); `shape` is ignored when present
     #[serde(default)]
     tree: Option<(InKind, DAst)>,
+    /// further applications on the SAME operator value, after the first: (fault, input seed, Vec length).
+    /// A combinator value must not carry anything over from one application to the next.
+    #[serde(default)]
+    more: Vec<(Option<usize>, u64, usize)>,
 }
 
 struct C14 {
@@ -1145,11 +1187,27 @@ fn shrink_tree(t: &DAst) -> Vec<DAst> {
     out
 }
 
+/// Further applications on the same operator value (a third of the scenarios): each with its own input and
+/// its own fault position (or none).
+fn gen_more(g: &mut Xo, max_fault: usize) -> Vec<(Option<usize>, u64, usize)> {
+    if !g.chance(1, 3) {
+        return Vec::new();
+    }
+    (0..g.urange(1, 2))
+        .map(|_| {
+            let fault = if g.coin() { None } else { Some(g.usize_below(max_fault.max(1))) };
+            (fault, g.next_u64(), g.urange(0, 4))
+        })
+        .collect()
+}
+
 fn gen_dynamic(g: &mut Xo) -> Sc {
     let input_seed = g.next_u64();
-    let list_len = g.urange(0, 4);
+    // (rarely) long Vec inputs: Map over hundreds of elements
+    let long = g.chance(1, 40);
+    let list_len = if long { g.log_uniform(5, 3000) } else { g.urange(0, 4) };
     let rng = RngSpec::swarm(g);
-    let kind = *g.pick(&[InKind::U, InKind::U, InKind::Pair, InKind::Arr2, InKind::List]);
+    let kind = if long { InKind::List } else { *g.pick(&[InKind::U, InKind::U, InKind::Pair, InKind::Arr2, InKind::List]) };
     let input = make_input(input_seed, list_len);
     let probe_rng = rng.build();
     let mut chosen: Option<(DAst, usize)> = None;
@@ -1157,8 +1215,8 @@ fn gen_dynamic(g: &mut Xo) -> Sc {
         let depth = g.urange(2, 9);
         let mut tg = TreeGen { next_id: 0 };
         let (tree, _) = tg.gen(g, &in_shape(kind), depth);
-        if let Some(m) = model_calls(&tree, input.val(kind), &probe_rng) {
-            if m <= DYN_MAX_CALLS {
+        if let Some(m) = model_calls(&tree, input.val(kind), &probe_rng, DYN_MAX_CALLS + 4 * list_len + 1) {
+            if m <= DYN_MAX_CALLS + 4 * list_len {
                 chosen = Some((tree, m));
                 break;
             }
@@ -1166,7 +1224,8 @@ fn gen_dynamic(g: &mut Xo) -> Sc {
     }
     let (tree, m) = chosen.unwrap_or((DAst::Then(Box::new(DAst::P(1)), Box::new(DAst::P(2))), 2));
     let fault = if m == 0 || g.chance(1, 5) { None } else { Some(g.below(m as u64) as usize) };
-    Sc { shape: 0, fault, input_seed, list_len, rng, tree: Some((kind, tree)) }
+    let more = gen_more(g, m.max(1));
+    Sc { shape: 0, fault, input_seed, list_len, rng, tree: Some((kind, tree)), more }
 }
 
 impl C14 {
@@ -1220,42 +1279,63 @@ impl Check for C14 {
             shape,
             fault: if f == 0 { None } else { Some(f - 1) },
             input_seed: g.next_u64(),
-            list_len: g.urange(0, 4),
+            list_len: if g.chance(1, 60) { g.log_uniform(5, 3000) } else { g.urange(0, 4) },
             rng: RngSpec::swarm(g),
             tree: None,
+            more: gen_more(g, MAX_FAULT),
         }
     }
 
     fn execute(&self, sc: &Sc, obs: &mut Obs) -> Vec<Violation> {
-        let input = make_input(sc.input_seed, sc.list_len);
+        // applications on ONE operator value: the first, then `more`
+        let specs: Vec<(Option<usize>, u64, usize)> =
+            std::iter::once((sc.fault, sc.input_seed, sc.list_len)).chain(sc.more.iter().copied()).collect();
+        let apps: Vec<App> = specs.iter().map(|(f, seed, len)| App { input: make_input(*seed, *len), fault: *f }).collect();
         let mut real_rng = sc.rng.build();
-        let mut cx = ModelCtx { rng: real_rng.fork(), log: Vec::new(), fail_at: sc.fault };
-        let sh = Shared { log: RefCell::new(Vec::new()), fail_at: sc.fault };
-        let (name, expected, got): (String, _, _) = if let Some((kind, tree)) = &sc.tree {
-            let expected = eval(&tree.model(), input.val(*kind), &mut cx);
-            if let Err(p) = &expected {
+        let sh = Shared::default();
+        // ---- model: every application is predicted independently of the others (same stream, in sequence)
+        let (kind, ast, name): (InKind, Ast, String) = match &sc.tree {
+            Some((kind, tree)) => (*kind, tree.model(), "dyn-tree".to_string()),
+            None => {
+                let Some(shape) = self.shapes.get(sc.shape) else { return Vec::new() };
+                (shape.input, shape.ast.clone(), shape.name.to_string())
+            }
+        };
+        let mut model_rng = real_rng.fork();
+        let mut expected: Vec<(Result<Val, Vec<String>>, Vec<LogEntry>)> = Vec::new();
+        for a in &apps {
+            let mut cx = ModelCtx { rng: model_rng, log: Vec::new(), fail_at: a.fault, budget: usize::MAX };
+            let e = eval(&ast, a.input.val(kind), &mut cx);
+            if let Err(p) = &e {
                 if p.iter().any(|t| t.starts_with("model:")) {
                     return Vec::new(); // (a shrink candidate whose tree does not fit its input)
                 }
             }
+            model_rng = cx.rng;
+            expected.push((e, cx.log));
+        }
+        // ---- real
+        let got = if let Some((kind, tree)) = &sc.tree {
             obs.hit("probe.dynamic-tree");
             obs.count("probe.dynamic-tree-depth-sum", tree.depth() as u64);
             if tree.depth() >= 6 {
                 obs.hit("probe.dynamic-tree-depth>=6");
             }
-            let got = catch(|| {
+            catch(|| {
                 let op = build(tree, &sh);
-                match op.apply(input.val(*kind), &mut real_rng) {
-                    Ok(o) => Ok(o),
-                    Err(e) => Err(error_path(&e)),
-                }
-            });
-            ("dyn-tree".to_string(), expected, got)
+                apps.iter()
+                    .map(|a| {
+                        sh.begin(a.fault);
+                        match op.apply(a.input.val(*kind), &mut real_rng) {
+                            Ok(o) => Ok(o),
+                            Err(e) => Err(error_path(&e)),
+                        }
+                    })
+                    .collect::<Vec<_>>()
+            })
         } else {
             let Some(shape) = self.shapes.get(sc.shape) else { return Vec::new() };
-            let expected = eval(&shape.ast, input.val(shape.input), &mut cx);
-            let got = catch(|| (shape.run)(&sh, &input, &mut real_rng));
-            (shape.name.to_string(), expected, got)
+            catch(|| (shape.run)(&sh, &apps, &mut real_rng))
         };
         let mut v = Vec::new();
         let name = name.as_str();
@@ -1266,92 +1346,115 @@ impl Check for C14 {
                 v.push(Violation::new(
                     "never-panics",
                     key("panic"),
-                    format!("{name} (fault {:?}, list length {}): panicked: {}", sc.fault, sc.list_len, p.message),
+                    format!("{name} (applications {specs:?}): panicked: {}", p.message),
                 ));
                 return v;
             }
         };
-        let log = sh.log.borrow().clone();
-        obs.count("steps", log.len() as u64);
+        let logs = sh.logs();
+        obs.count("steps", logs.iter().map(Vec::len).sum::<usize>() as u64);
         obs.count("draws", real_rng.draws());
-        let fired = sc.fault.is_some_and(|k| k < cx.log.len());
-        if fired {
-            obs.hit("fault.component-fail");
+        if apps.len() > 1 {
+            obs.hit("probe.operator-value-applied-more-than-once");
         }
-        let cfg = match &sc.tree {
-            Some((kind, tree)) => {
-                format!("tree {tree:?} on input {kind:?}, fault at probe call {:?}, Vec input length {}", sc.fault, sc.list_len)
+        let mut any_fired = false;
+        let mut calls = 0usize;
+        let empty: Vec<LogEntry> = Vec::new();
+        for (i, a) in apps.iter().enumerate() {
+            let (exp, mlog) = &expected[i];
+            let log = logs.get(i).unwrap_or(&empty);
+            calls += mlog.len();
+            let fired = a.fault.is_some_and(|k| k < mlog.len());
+            if fired {
+                obs.hit("fault.component-fail");
+                any_fired = true;
             }
-            None => format!("{name}, fault at probe call {:?}, Vec input length {}", sc.fault, sc.list_len),
-        };
-        if log != cx.log {
-            let first = log.iter().zip(&cx.log).position(|(a, b)| a != b).unwrap_or(log.len().min(cx.log.len()));
-            let clause = if log.len() > cx.log.len() && fired { "stops-at-first-failure" } else { "parts-run-in-order-on-the-right-input" };
-            v.push(Violation::new(
-                clause,
-                key("log"),
-                format!(
-                    "{cfg}: probe log differs from the model at call {first}: real {:?} (of {} calls) vs model {:?} (of {} calls)",
-                    log.get(first),
-                    log.len(),
-                    cx.log.get(first),
-                    cx.log.len()
-                ),
-            ));
+            let nth = if apps.len() > 1 { format!(" [application #{i} of {} on the same operator value]", apps.len()) } else { String::new() };
+            let cfg = match &sc.tree {
+                Some((kind, tree)) => {
+                    format!("tree {tree:?} on input {kind:?}, fault at probe call {:?}, Vec input length {}{nth}", a.fault, specs[i].2)
+                }
+                None => format!("{name}, fault at probe call {:?}, Vec input length {}{nth}", a.fault, specs[i].2),
+            };
+            let before = v.len();
+            if log != mlog {
+                let first = log.iter().zip(mlog).position(|(a, b)| a != b).unwrap_or(log.len().min(mlog.len()));
+                let clause = if log.len() > mlog.len() && fired { "stops-at-first-failure" } else { "parts-run-in-order-on-the-right-input" };
+                v.push(Violation::new(
+                    clause,
+                    key("log"),
+                    format!(
+                        "{cfg}: probe log differs from the model at call {first}: real {:?} (of {} calls) vs model {:?} (of {} calls)",
+                        log.get(first),
+                        log.len(),
+                        mlog.get(first),
+                        mlog.len()
+                    ),
+                ));
+            }
+            match (got.get(i), exp) {
+                (Some(Ok(a)), Ok(b)) => {
+                    if a != b {
+                        v.push(Violation::new("output", key("output"), format!("{cfg}: output {a:?} differs from the model's {b:?}")));
+                    }
+                }
+                (Some(Err(a)), Err(b)) => {
+                    if a != b {
+                        v.push(Violation::new(
+                            "error-identifies-failing-part",
+                            key("error-path"),
+                            format!("{cfg}: error path {a:?}, model expects {b:?}"),
+                        ));
+                    }
+                }
+                (Some(Ok(a)), Err(b)) => v.push(Violation::new(
+                    "stops-at-first-failure",
+                    key("missing-error"),
+                    format!("{cfg}: returned Ok({a:?}) although the model expects the error {b:?}"),
+                )),
+                (Some(Err(a)), Ok(_)) => v.push(Violation::new(
+                    "error-identifies-failing-part",
+                    key("spurious-error"),
+                    format!("{cfg}: failed with {a:?} although no part failed"),
+                )),
+                (None, _) => v.push(Violation::new("harness-self-check", key("missing-result"), format!("{cfg}: no result recorded"))),
+            }
+            if v.len() > before {
+                break; // later applications start from a diverged stream
+            }
         }
-        if real_rng.state_fingerprint() != cx.rng.state_fingerprint() {
+        if v.is_empty() && real_rng.state_fingerprint() != model_rng.state_fingerprint() {
             v.push(Violation::new(
                 "shared-stream-consumed-left-to-right-only-by-parts",
                 key("rng"),
                 format!(
-                    "{cfg}: after the call the stream is at draw {} (model: {}); the combinators themselves must not draw and nothing may draw after a failure",
+                    "{name} (applications {specs:?}): afterwards the stream is at draw {} (model: {}); the combinators themselves must not draw and nothing may draw after a failure",
                     real_rng.draws(),
-                    cx.rng.draws()
+                    model_rng.draws()
                 ),
             ));
         }
-        match (&got, &expected) {
-            (Ok(a), Ok(b)) => {
-                if a != b {
-                    v.push(Violation::new(
-                        "output",
-                        key("output"),
-                        format!("{cfg}: output {a:?} differs from the model's {b:?}"),
-                    ));
-                }
-            }
-            (Err(a), Err(b)) => {
-                if a != b {
-                    v.push(Violation::new(
-                        "error-identifies-failing-part",
-                        key("error-path"),
-                        format!("{cfg}: error path {a:?}, model expects {b:?}"),
-                    ));
-                }
-            }
-            (Ok(a), Err(b)) => v.push(Violation::new(
-                "stops-at-first-failure",
-                key("missing-error"),
-                format!("{cfg}: returned Ok({a:?}) although the model expects the error {b:?}"),
-            )),
-            (Err(a), Ok(_)) => v.push(Violation::new(
-                "error-identifies-failing-part",
-                key("spurious-error"),
-                format!("{cfg}: failed with {a:?} although no part failed"),
-            )),
-        }
-        if fired || cx.log.len() >= 2 {
+        if any_fired || calls >= 2 {
             let shape_fp = match &sc.tree {
                 Some((kind, tree)) => simcore::fnv1a(format!("{kind:?}{tree:?}").as_bytes()),
                 None => sc.shape as u64,
             };
-            obs.nontrivial(mix(mix(mix(7, shape_fp), sc.fault.map_or(99, |k| k as u64)), sc.list_len as u64));
+            obs.nontrivial(mix(mix(mix(mix(7, shape_fp), sc.fault.map_or(99, |k| k as u64)), sc.list_len as u64), sc.more.len() as u64));
         }
         v
     }
 
     fn shrink(&self, sc: &Sc) -> Vec<Sc> {
         let mut out = Vec::new();
+        for i in 0..sc.more.len() {
+            let mut m = sc.more.clone();
+            m.remove(i);
+            out.push(Sc { more: m, ..sc.clone() });
+        }
+        if let Some((f, seed, len)) = sc.more.first() {
+            // the later application alone
+            out.push(Sc { fault: *f, input_seed: *seed, list_len: *len, more: sc.more[1..].to_vec(), ..sc.clone() });
+        }
         if let Some((kind, tree)) = &sc.tree {
             // replace the tree by one of its parts, or a part by one of its own parts (candidates that
             // do not fit the input are recognised by the model and ignored)
